@@ -49,6 +49,9 @@ class Runtime:
         self.mutate_defaults = False
         self.silent_failures = True
 
+    def __repr__(self):
+        return "<Runtime>"          # stable: the library may hash the repr of what a node function captures
+
     def reset(self):
         self.log = []          # dicts: path, idx, args [[param, text]], objs {param: id}
         self.counters = {}
@@ -203,6 +206,15 @@ def _mk_callable(rt, path, nd, entry):
     else:
         src = f"def {fname}({params}):\n    return RT.{entry}({path!r}, {argt})\n"
     shared = nd["fid"] != nd["name"] and not nd["fid"].startswith("path:")
+    if nd.get("closure"):
+        # a function returned by a FILE-DEFINED factory: same source text as its siblings, another captured value
+        from . import closures
+        kind, k = nd["closure"]
+        assert shared and orig == ["x"] and entry == "call", nd
+        rt.nodes.setdefault("fid:" + nd["fid"], nd)
+        f = (closures.make_closure if kind == "cell" else closures.make_default)(rt, "fid:" + nd["fid"], k)
+        rt.shared_funcs[nd["fid"]] = f
+        return f
     if shared and nd["fid"] in rt.shared_funcs:
         return rt.shared_funcs[nd["fid"]]       # several nodes wrap the very same function object
     if shared:
